@@ -26,7 +26,7 @@ def run_shape(sc, inject=None, keep=False):
             'nframes': len(d.bus.log),
             'frames': [(f.src, f.can_id, f.data, f.injected) for f in d.bus.log],
             'result': [(r.get('ret'), r.get('exc')) for r in d.results],
-            'served': list(d.served),
+            'served': list(d.served) + [('own query',) + tuple(q) for q in d.own_queries],
             'proceed': [c[1] for c in d.proceed_calls],
             'notifies': d.notifies,
             'states': d.snapshot_states(),
@@ -151,6 +151,10 @@ def scenarios(tier):
         for n in lens:
             out.append({'cfg': {'seed': sd}, 'ops': [c17.rd(0x1000, n)]})
             out.append({'cfg': {'seed': sd}, 'ops': [c17.wr(0x1000, n)]})
+        # the serving ECU is itself a client of a third ECU right after respond() (its facade is then in its querying state
+        # while the inbound transaction is still closing)
+        for n in ((4, 30) if tier == 'quick' else (1, 4, 9, 30)):
+            out.append({'cfg': {'seed': sd, 'third': True}, 'ops': [dict(c17.rd(0x1000, n), then_query=1)]})
         if tier != 'quick':
             for base in (0.2e-3, 5e-3):
                 out.append({'cfg': {'seed': sd, 'base_lat': base}, 'ops': [c17.rd(0x1000, 9)]})
